@@ -866,3 +866,45 @@ package decimal128
 //@ panics isnan(d)
 //@ ensures s == ite(!special(d) && coef(d) == 0, 0, ite(sign(d), 0 - 1, 1))
 //@ props C04 C15 C20
+
+// ---------------------------------------------------------------------------
+// binary.go (C12): the 16 bytes are hi then lo, most significant byte first,
+// i.e. the 128-bit BID string in big-endian order. Together with the
+// bit-vector contracts of decompose/compose against the IEEE decoder this ties
+// the byte form to sign, combination field, exponent and coefficient.
+// ---------------------------------------------------------------------------
+
+//@ func Decimal.MarshalBinary
+//@ returns (data, err)
+//@ ensures tag(err) == 0 && len(data) == 16
+//@ ensures data[0] == (hi(d) / 72057594037927936) % 256 && data[8] == (lo(d) / 72057594037927936) % 256
+//@ ensures data[1] == (hi(d) / 281474976710656) % 256 && data[9] == (lo(d) / 281474976710656) % 256
+//@ ensures data[2] == (hi(d) / 1099511627776) % 256 && data[10] == (lo(d) / 1099511627776) % 256
+//@ ensures data[3] == (hi(d) / 4294967296) % 256 && data[11] == (lo(d) / 4294967296) % 256
+//@ ensures data[4] == (hi(d) / 16777216) % 256 && data[12] == (lo(d) / 16777216) % 256
+//@ ensures data[5] == (hi(d) / 65536) % 256 && data[13] == (lo(d) / 65536) % 256
+//@ ensures data[6] == (hi(d) / 256) % 256 && data[14] == (lo(d) / 256) % 256
+//@ ensures data[7] == (hi(d) / 1) % 256 && data[15] == (lo(d) / 1) % 256
+//@ props C12 C20
+
+//@ func Decimal.UnmarshalBinary
+//@ returns (err)
+//@ ensures (tag(err) == 0) <==> len(data) == 16
+//@ ensures len(data) != 16 ==> *d == old(*d)
+//@ ensures len(data) == 16 ==> hi(*d) == data[0]*72057594037927936 + data[1]*281474976710656 + data[2]*1099511627776 + data[3]*4294967296 + data[4]*16777216 + data[5]*65536 + data[6]*256 + data[7]
+//@ ensures len(data) == 16 ==> lo(*d) == data[8]*72057594037927936 + data[9]*281474976710656 + data[10]*1099511627776 + data[11]*4294967296 + data[12]*16777216 + data[13]*65536 + data[14]*256 + data[15]
+//@ assigns nothing
+//@ props C12 C20
+
+// Round trip and uniqueness of the byte form: base-256 digits of a word are unique.
+//@ lemma be64_unique
+//@ forall a0 u8, a1 u8, a2 u8, a3 u8, a4 u8, a5 u8, a6 u8, a7 u8, b0 u8, b1 u8, b2 u8, b3 u8, b4 u8, b5 u8, b6 u8, b7 u8
+//@ hyp a0*72057594037927936 + a1*281474976710656 + a2*1099511627776 + a3*4294967296 + a4*16777216 + a5*65536 + a6*256 + a7 == b0*72057594037927936 + b1*281474976710656 + b2*1099511627776 + b3*4294967296 + b4*16777216 + b5*65536 + b6*256 + b7
+//@ holds a0 == b0 && a1 == b1 && a2 == b2 && a3 == b3 && a4 == b4 && a5 == b5 && a6 == b6 && a7 == b7
+//@ props C12
+
+// base-256 digits of a 64-bit word, most significant first, recompose the word
+//@ lemma be64_digits
+//@ forall h u64
+//@ holds h == ((h / 72057594037927936) % 256)*72057594037927936 + ((h / 281474976710656) % 256)*281474976710656 + ((h / 1099511627776) % 256)*1099511627776 + ((h / 4294967296) % 256)*4294967296 + ((h / 16777216) % 256)*16777216 + ((h / 65536) % 256)*65536 + ((h / 256) % 256)*256 + (h % 256)
+//@ props C12
